@@ -221,7 +221,7 @@ def run(ctx):
     # one file per subject with recorded deviations (a rejection re-validates only that subject), the others in chunks
     merged = os.path.join(w, "merged")
     os.makedirs(merged, exist_ok=True)
-    DEV_FAMS = ("valvec32", "autogrow", "fixedq", "advanced", "zo")
+    DEV_FAMS = ("valvec32", "autogrow", "fixedq", "advanced", "zo", "sortable")
 
     def merge(prefix):
         files = files_of(b1, prefix)
@@ -277,8 +277,25 @@ def run(ctx):
         (T_STR, fs, corrupt_string_byte, "one byte of a stored string changed"),
         (T_STR, fs, corrupt_sorted_view, "two entries of the sorted view swapped"),
     ]
+    def crash_selftest():
+        """a child process that dies by a signal must surface as a `crash` event that the contract rejects"""
+        s = ctx.harness(BIN, "drive", "selftest-crash", subject="fixedq:1", extra={"test_crash": "fixedq:1"})
+        cf_ = (s.get("subjects", {}).get("fixedq:1", {}) or {}).get("crash_files") or []
+        ok = False
+        at = None
+        if s.get("crashes") == 1 and cf_:
+            r = vlib.validate_one(T_DQ, cf_[0], kf=True)
+            at = r["rejected_at"]
+            ok = (not r["accepted"]) and isinstance(r.get("event"), dict) and r["event"].get("op") == "crash"
+        with _ST_LOCK:
+            ctx.cov["selftests"].append({"what": "child process killed by a signal (abort) -> crash event -> rejected", "trace_spec": T_DQ,
+                                         "rejected_as_expected": ok, "rejected_at": at, "deviations_enabled": True})
+        if not ok:
+            raise vlib.ToolError("binding self-test failed: a crashed child was not reported/rejected: %s" % json.dumps(s.get("subjects"))[:400])
+        vlib.log("self-test ok: crashed child process reported as a crash event and rejected")
+
     with cf.ThreadPoolExecutor(max_workers=6) as ex:
-        futs = [ex.submit(selftest, ctx, *t) for t in tests]
+        futs = [ex.submit(selftest, ctx, *t) for t in tests] + [ex.submit(crash_selftest)]
         errs = []
         for f in futs:
             try:
